@@ -46,7 +46,7 @@ func (c *Ctx) Mine(i int) bool { return c.NShards == 0 || i%c.NShards == c.Shard
 // single-threaded: package-level state of the code under test is then private to a shard) and
 // merges their partial reports. A child that dies is a harness error, never a verdict.
 func (c *Ctx) Fork(n int) {
-	dir, err := os.MkdirTemp("/verif/.build", "run.")
+	dir, err := os.MkdirTemp(report.BuildDir, "run.")
 	if err != nil {
 		c.R.HarnessError(err.Error())
 		return
